@@ -496,6 +496,86 @@ impl Case for PairCase {
     }
 }
 
+/// C06 on a sub-structure: the element at `path` inside the structure parsed from `base` is taken out
+/// (`get_child(..).inner_t().clone()` along the path) and extended with the documents of `ext`
+#[derive(Clone, Debug)]
+pub struct SubCase {
+    pub base: HistoryCase,
+    pub path: Vec<String>,
+    pub ext: HistoryCase,
+}
+
+impl SubCase {
+    fn sub_tree(&self) -> Option<xml_schema_generator::Element<String>> {
+        let t = self.base.final_tree()?;
+        let mut cur = &t;
+        for k in &self.path {
+            cur = cur.get_child(k)?.inner_t();
+        }
+        Some(cur.clone())
+    }
+    pub fn from_json(v: &Value) -> Option<SubCase> {
+        Some(SubCase {
+            base: HistoryCase::from_json(&v["base"]).ok()?,
+            path: v["path"].as_array()?.iter().filter_map(|x| x.as_str().map(|s| s.to_string())).collect(),
+            ext: HistoryCase::from_json(&v["extension"]).ok()?,
+        })
+    }
+}
+
+impl Case for SubCase {
+    fn line(&self, id: &str, prop: &str) -> LineOut {
+        let (bb, ib) = match self.base.build() {
+            Built::Line { body, info } => (body, info),
+            Built::Panic(m) => return LineOut::ImplFailure(m),
+            Built::Harness(m) => return LineOut::Harness(m),
+        };
+        let sub = match std::panic::catch_unwind(std::panic::AssertUnwindSafe(|| self.sub_tree())) {
+            Ok(Some(s)) => s,
+            Ok(None) => return LineOut::Harness("no element at the path".into()),
+            Err(_) => return LineOut::ImplFailure("panic in get_child".into()),
+        };
+        let sub_tokens = match crate::implrun::tree_tokens(&sub) {
+            Ok((t, _)) => t,
+            Err(e) => return LineOut::Harness(e),
+        };
+        let (be, ie) = match self.ext.build_from(Some(sub)) {
+            Built::Line { body, info } => (body, info),
+            Built::Panic(m) => return LineOut::ImplFailure(m),
+            Built::Harness(m) => return LineOut::Harness(m),
+        };
+        let path: String = self.path.iter().map(|k| format!(" {}", enc(k))).collect();
+        LineOut::Line(
+            format!("SUB {} {} {} P{}{} {} {}", id, prop, bb, self.path.len(), path, sub_tokens, be),
+            Meta {
+                nontrivial: ib.nodes >= 2 && ie.steps_ok >= 1,
+                metrics: vec![
+                    ("documents".into(), (ib.docs + ie.docs) as u64),
+                    ("schema_nodes".into(), ib.nodes as u64),
+                    ("sub_path_length".into(), self.path.len() as u64),
+                    ("steps_err".into(), (ib.steps_err + ie.steps_err) as u64),
+                ],
+                tags: vec!["relation:sub-structure".into(), format!("theme:{}", self.base.theme)],
+            },
+        )
+    }
+    fn shrink(&self) -> Vec<Self> {
+        let mut out = Vec::new();
+        for e in self.ext.shrink_candidates() {
+            if !e.docs.is_empty() {
+                out.push(SubCase { base: self.base.clone(), path: self.path.clone(), ext: e });
+            }
+        }
+        for b in self.base.shrink_candidates() {
+            out.push(SubCase { base: b, path: self.path.clone(), ext: self.ext.clone() });
+        }
+        out
+    }
+    fn json(&self) -> Value {
+        json!({"kind": "sub-structure", "base": self.base.to_json(), "path": self.path, "extension": self.ext.to_json()})
+    }
+}
+
 impl PairCase {
     pub fn from_json(v: &Value) -> Option<PairCase> {
         Some(PairCase { rel: v["relation"].as_str()?.to_string(), a: HistoryCase::from_json(&v["first"]).ok()?, b: HistoryCase::from_json(&v["second"]).ok()?, nontrivial: true })
